@@ -51,7 +51,7 @@ FireServe ==
   /\ UNCHANGED <<l, clean, EnvOps>>
 FireStop == armed["stop"] /\ StopNext /\ armed' = [armed EXCEPT !["stop"] = FALSE] /\ UNCHANGED <<l, clean, EnvOps>>
 FireDrain == armed["drain"] /\ DrainNext /\ armed' = [armed EXCEPT !["drain"] = FALSE] /\ UNCHANGED <<l, clean, EnvOps>>
-FireHandler(h) == armed[h] /\ HandlerNext(h) /\ armed' = [armed EXCEPT ![h] = FALSE] /\ UNCHANGED <<l, clean, EnvOps>>
+FireHandler(h) == armed[h] /\ HandlerNext(h) /\ armed' = [armed EXCEPT ![h] = (hs'[h] = "add2")] /\ UNCHANGED <<l, clean, EnvOps>>
 FireConnect(h) == h \in connecting /\ PeerConnect(h) /\ UNCHANGED <<l, clean, armed, EnvOps>>
 FireClose(h) == h \in closing /\ PeerClose(h) /\ closing' = closing \ {h} /\ UNCHANGED <<l, clean, armed, connecting, freeing>>
 FireFreed == freeing /\ PortFreed /\ freeing' = FALSE /\ UNCHANGED <<l, clean, armed, connecting, closing>>
